@@ -86,6 +86,17 @@ CHECKS = {
         "design_ref": "DESIGN.md section 4, C10",
         "note": "alloc::fmt::format stubbed; f64 conversions and type-reference print/parse are outside the claim.",
     },
+    "C11": {
+        "engine": "kani",
+        "technique": "bounded model checking (Kani/CBMC) of the offset -> line/column conversion against a byte-level reference: symbolic offsets over listed texts, plus one symbolic text byte after listed prefixes",
+        "text": "SourceFile::get_line_column for EVERY 64-bit offset (in bounds, at the end, out of bounds) on 11 listed texts (12 thorough) that contain "
+                "\\n, \\r\\n, lone \\r, trailing terminators, vertical tab, form feed, U+0085, U+2028, U+2029 and 2-/3-/4-byte characters, and on "
+                "prefix ++ [b] for every ASCII byte b (or every continuation byte of a 2-byte character) after 5 listed prefixes (7 thorough); "
+                "get_line_column_range for every pair of offsets on 2 texts. Reference: GraphQL LineTerminator lines, Unicode-scalar-value columns.",
+        "design_ref": "DESIGN.md section 4, C11",
+        "note": "alloc::fmt::format stubbed; the SourceFile is built from its fields; locations attached during CST conversion, the SourceMap lookup and "
+                "diagnostic/JSON rendering are outside the claim. Found and repaired: byte columns, extra line breaks, missing line after a trailing terminator (210b5a6).",
+    },
     "C23": {
         "engine": "kani",
         "technique": "bounded model checking (Kani/CBMC) against a byte-level reference for the five coordinate forms",
@@ -139,7 +150,6 @@ NOT_APPLICABLE = {
     "C05": "every grammar production needs >= 3 tokens of symbolic input; " + _P,
     "C07": "needs parse_type / parse_selection_set on symbolic suffixes; measured: no symbolic dimension survives the parser (see C01/C02); " + _P,
     "C08": "parser + fmt pretty-printer + parser again; " + _P,
-    "C11": "SourceFile::get_line_column delegates to ariadne::Source, which builds a line table by iterating the characters of the whole (symbolic) text: the symbolic-length char-iteration pattern measured not to finish for two or more symbolic bytes; locations attached during CST conversion need the parser (no symbolic dimension survives it). The Name/Node location round trip itself is decided under C30",
     "C12": _S + "; also " + _P,
     "C13": "SchemaBuilder/ExecutableDocumentBuilder over IndexMap; " + _S,
     "C14": "whole validator over Schema; " + _S + "; the named oracle (graphql-core) is not installed",
